@@ -19,7 +19,7 @@ def run(tier, seed):
                 'save -> load type preservation: every int/float/str value is written by str() and re-read through _set; '
                 'int(str(n)) = n, float(str(x)) = x and int(str(x_float)) raising are assumed properties of the builtins',
                 'not decided: ConfigParser interpolation (%), whitespace handling, boolean values')
-    items = [(C.cfg_set('C20'), None, C.replay_cfg_set), (C.cfg_set_nonstr('C20'),), (C.cfg_add('C20'),), (C.cfg_check('C20'),),
+    items = [(C.cfg_set('C20'), None, C.replay_cfg_set), (C.cfg_set_nonstr('C20'),), (C.cfg_add('C20'),), (C.cfg_check('C20'), None, C.replay_cfg_check),
              (C.cfg_as_dict('C20'), C.WIT_F20, C.replay_as_dict), (C.update_config_object('C20'),)] + [(c,) for c in C.cfg_load('C20')] + \
         [(C.get_config_path_c('C20'), None, C.replay_get_config_path)]
     # a run over several cases hands every keyword (config_option, config, config_path, ...) to each case
